@@ -200,40 +200,31 @@ def r5(ctx):
     out = ev.run(f, [s, Tup((S0, S1))], {})
     construct = 'RegionBoundingBox.get_overlap_slices'
     rets = out.returns
-    nonnone = [(pc, v) for pc, v in rets if not (isinstance(v, Tup) and all(
-        isinstance(i, Const) and i.v is None for i in v.items))]
-    nones = [pc for pc, v in rets if isinstance(v, Tup) and len(v.items) == 2 and all(
-        isinstance(i, Const) and i.v is None for i in v.items)]
-    ctx.need(len(nonnone) == 1 and len(nones) >= 1, construct,
-             f'expected one (None, None) exit and one slices exit, found {len(nones)}+{len(nonnone)}')
-    v = nonnone[0][1]
-    ok_shape = isinstance(v, Tup) and len(v.items) == 2 and all(
-        isinstance(w, Tup) and len(w.items) == 2 and all(isinstance(sl, App) and sl.name == 'slice' for sl in w.items)
-        for w in v.items)
-    ctx.need(ok_shape, construct, f'slices value not understood: {show(v, 300)}')
-    large, small = v.items
+    is_none = lambda v: isinstance(v, Tup) and len(v.items) == 2 and all(isinstance(i, Const) and i.v is None for i in v.items)  # noqa: E731
+    nonnone = [(pc, v) for pc, v in rets if not is_none(v)]
+    nones = [pc for pc, v in rets if is_none(v)]
+    ctx.need(len(nonnone) >= 1 and len(nones) >= 1, construct,
+             f'expected (None, None) exits and slices exits, found {len(nones)}+{len(nonnone)}')
     zero = sp.Integer(0)
-    wantL = [(sp.Max(F['iymin'], zero), sp.Min(F['iymax'], S0)), (sp.Max(F['ixmin'], zero), sp.Min(F['ixmax'], S1))]
-    origin = [F['iymin'], F['ixmin']]
-    probs = []
-    for axis, (sl, (lo, hi)) in enumerate(zip(large.items, wantL)):
-        a0, a1 = sl.args
-        if not (is_num(a0) and is_num(a1) and push_shift(a0) == lo and push_shift(a1) == hi):
-            probs.append(f'large window axis {axis} is [{show(a0)}:{show(a1)}], want [{lo}:{hi}]')
-    for axis, (sl, (lo, hi)) in enumerate(zip(small.items, wantL)):
-        a0, a1 = sl.args
-        if not (is_num(a0) and is_num(a1) and push_shift(a0 + origin[axis]) == lo
-                and push_shift(a1 + origin[axis]) == hi):
-            probs.append(f'small window axis {axis} is [{show(a0)}:{show(a1)}], which is not the large window '
-                         f'shifted by the box origin {origin[axis]}')
-    if probs:
-        ctx.bad(construct, 'windows', '; '.join(probs), f.loc())
-    else:
-        ctx.ok(construct + ':windows', 'large = clip to image, small = large - origin, y before x')
-    # the (None, None) condition on all orderings of {min, max, 0, S} per axis
-    cond = ev.conj(nones[0]) if len(nones) == 1 else BoolT('or', tuple(ev.conj(p) for p in nones))
-    # drop validation conjuncts (len(shape) != 2 folds to a constant)
     Z = sp.Symbol('ZERO', integer=True)
+    allowed = {F[k] for k in FIELDS} | {S0, S1, Z}
+
+    def ncond(t):
+        """bool(ite(A, True, B)) -> A or B, etc.: the evaluator's spelling of short-circuit tests"""
+        if isinstance(t, App) and t.name in ('bool', 'call:bool') and len(t.args) == 1:
+            return ncond(t.args[0])
+        if isinstance(t, Ite):
+            c_, a_, b_ = ncond(t.cond), ncond(t.a), ncond(t.b)
+            if isinstance(a_, Const) and a_.v is True:
+                return BoolT('or', (c_, b_))
+            if isinstance(b_, Const) and b_.v is False:
+                return BoolT('and', (c_, a_))
+            return t
+        if isinstance(t, BoolT) and t.op == 'truthy' and len(t.args) == 1:
+            return ncond(t.args[0])
+        if isinstance(t, BoolT):
+            return BoolT(t.op, tuple(ncond(x) for x in t.args))
+        return t
 
     def z(t):
         if is_num(t):
@@ -247,10 +238,81 @@ def r5(ctx):
         if isinstance(t, BoolT):
             return BoolT(t.op, tuple(z(x) for x in t.args))
         return t
-    condz = z(cond)
-    allowed = {F[k] for k in FIELDS} | {S0, S1, Z}
-    if not order_only(condz, allowed):
-        raise AnalysisError('C19.R5', construct, f'no-overlap condition is not an order-only term: {show(cond, 300)}')
+
+    def order_part(pc):
+        """the conjuncts of a path condition that speak about the order of the limits, 0 and the image size (the others —
+        type tests that select a fast path, the folded length validation — can only make the path rarer)"""
+        keep = []
+        for c in pc:
+            c = z(ncond(c))
+            if isinstance(c, Const):
+                continue
+            if order_only(c, allowed):
+                keep.append(c)
+        return keep
+
+    def facts(conds):
+        """atoms known true / false on a path, by their printed form"""
+        tr, fa = set(), set()
+
+        def walk(c, pos):
+            if isinstance(c, BoolT) and c.op == 'not':
+                walk(c.args[0], not pos)
+            elif isinstance(c, BoolT) and ((c.op == 'and' and pos) or (c.op == 'or' and not pos)):
+                for x in c.args:
+                    walk(x, pos)
+            else:
+                (tr if pos else fa).add(show(c, 10 ** 5))
+        for c in conds:
+            walk(ncond(c), True)
+        return tr, fa
+
+    def prune(t, tr, fa):
+        """the value on this path: conditionals decided by the path condition are resolved"""
+        if isinstance(t, Ite):
+            k = show(ncond(t.cond), 10 ** 5)
+            if k in tr:
+                return prune(t.a, tr, fa)
+            if k in fa:
+                return prune(t.b, tr, fa)
+            return t
+        if isinstance(t, Tup):
+            return Tup(tuple(prune(i, tr, fa) for i in t.items), t.kind)
+        if isinstance(t, App):
+            return App(t.name, tuple(prune(i, tr, fa) for i in t.args))
+        return t
+    wantL = [(sp.Max(F['iymin'], zero), sp.Min(F['iymax'], S0)), (sp.Max(F['ixmin'], zero), sp.Min(F['ixmax'], S1))]
+    origin = [F['iymin'], F['ixmin']]
+    probs = []
+    for pc, v in nonnone:
+        v = prune(v, *facts(pc))
+        ok_shape = isinstance(v, Tup) and len(v.items) == 2 and all(
+            isinstance(w, Tup) and len(w.items) == 2 and all(isinstance(sl, App) and sl.name == 'slice' for sl in w.items)
+            for w in v.items)
+        ctx.need(ok_shape, construct, f'slices value not understood: {show(v, 300)}')
+        large, small = v.items
+        for axis, (sl, (lo, hi)) in enumerate(zip(large.items, wantL)):
+            a0, a1 = sl.args
+            if not (is_num(a0) and is_num(a1) and push_shift(a0) == lo and push_shift(a1) == hi):
+                probs.append(f'large window axis {axis} is [{show(a0)}:{show(a1)}], want [{lo}:{hi}]')
+        for axis, (sl, (lo, hi)) in enumerate(zip(small.items, wantL)):
+            a0, a1 = sl.args
+            if not (is_num(a0) and is_num(a1) and push_shift(a0 + origin[axis]) == lo
+                    and push_shift(a1 + origin[axis]) == hi):
+                probs.append(f'small window axis {axis} is [{show(a0)}:{show(a1)}], which is not the large window '
+                             f'shifted by the box origin {origin[axis]}')
+    if probs:
+        ctx.bad(construct, 'windows', '; '.join(sorted(set(probs))), f.loc())
+    else:
+        ctx.ok(construct + ':windows', 'large = clip to image, small = large - origin, y before x')
+    # (None, None) exactly when there is no common pixel, on all orderings of {min, max, 0, S} per axis: every path that
+    # returns (None, None) implies "no common pixel", every path that returns slices implies "a common pixel" (the paths
+    # together cover every input, so this is "exactly when")
+    none_conds = [order_part(pc) for pc in nones]
+    some_conds = [order_part(pc) for pc, _ in nonnone]
+    if any(not c for c in none_conds + some_conds):
+        raise AnalysisError('C19.R5', construct, 'an exit is reached under no condition on the order of the limits: '
+                            + '; '.join(show(ev.conj(pc), 200) for pc in nones + [p_ for p_, _ in nonnone]))
     xs = [F['ixmin'], F['ixmax'], Z, S1]
     ys = [F['iymin'], F['iymax'], Z, S0]
     X = list(weak_orderings(xs, [(xs[0], xs[1]), (Z, S1)]))
@@ -263,14 +325,16 @@ def r5(ctx):
             asg = {k: v - ax[Z] for k, v in ax.items()}
             asg.update({k: v - ay[Z] for k, v in ay.items()})
             n += 1
-            got = bool(ot_ev(condz, asg))
             x0, x1 = max(asg[xs[0]], 0), min(asg[xs[1]], asg[S1])
             y0, y1 = max(asg[ys[0]], 0), min(asg[ys[1]], asg[S0])
             want = x0 >= x1 or y0 >= y1
-            if got != want:
-                kind = 'empty-window-instead-of-None' if want else 'None-despite-common-pixels'
-                bad.setdefault(kind, []).append((describe({k: v for k, v in ax.items()}), describe(ay)))
-    ctx.note(f'get_overlap_slices: {n} order types evaluated')
+            got_none = any(all(bool(ot_ev(c, asg)) for c in cs) for cs in none_conds)
+            got_some = any(all(bool(ot_ev(c, asg)) for c in cs) for cs in some_conds)
+            if got_none and not want:
+                bad.setdefault('None-despite-common-pixels', []).append((describe({k: v for k, v in ax.items()}), describe(ay)))
+            if got_some and want:
+                bad.setdefault('empty-window-instead-of-None', []).append((describe({k: v for k, v in ax.items()}), describe(ay)))
+    ctx.note(f'get_overlap_slices: {n} order types evaluated on {len(nones)} + {len(nonnone)} exits')
     if not bad:
         ctx.ok(construct + ':none-condition', f'{n} order types: (None, None) exactly when no common pixel')
     for kind, lst in bad.items():
